@@ -51,6 +51,9 @@ func backendProp(b backendSpec, meaning string) propFunc {
 		r.Clauses = append(r.Clauses, "operator tokens (E2): in every dispatcher over all binary / unary operators of the "+b.Name+" backend the infix operator tokens and function-style spellings found in each arm's string literals are allowed for that operator in the target language, and each arm that prints a literal contains an allowed token")
 		c.runOperatorTokens(r, "opsel.tokens", b.Pkg, "BinaryOperator", textBinaryTokens, textBinaryCalls)
 		c.runOperatorTokens(r, "opsel.tokens", b.Pkg, "UnaryOperator", textUnaryTokens, textUnaryCalls)
+		r.Clauses = append(r.Clauses, "math builtin names (E2): in the dispatcher over ir.MathFunction that selects the target builtin, the known "+b.Name+" builtins spelled in each arm are the builtin whose specified semantics equal the WGSL builtin's (reference table written from the language specifications), e.g. round -> rint / roundEven / round")
+		c.runMathNames(r, "mathsel.names", b.Name, b.Pkg, 30)
+		r.floor("mathsel."+b.Name, 45)
 		r.floor("optokens."+b.Pkg+".BinaryOperator", 18)
 		r.floor("optokens."+b.Pkg+".UnaryOperator", 3)
 		r.floor(b.Name+".ExpressionHandle.walkers", 2)
@@ -59,7 +62,7 @@ func backendProp(b backendSpec, meaning string) propFunc {
 }
 
 func init() {
-	notDecided := "intrinsic (math builtin) names, which operand kinds take which spelling, argument order, parenthesisation, byte offsets, baking order, anything data-dependent: that the emitted text computes the WGSL result"
+	notDecided := "which operand kinds take which spelling, argument order, parenthesisation, byte offsets, baking order, anything data-dependent: that the emitted text computes the WGSL result"
 	for _, b := range backendSpecs {
 		if b.Prop != "C01" {
 			register(b.Prop, backendProp(b, notDecided))
